@@ -64,6 +64,9 @@ type skipper struct {
 
 type lexAPI struct {
 	name string
+	// converts: the API also converts the value (numbers into float64); a rejection of a valid
+	// document counts only if encoding/json's Unmarshal accepts the same document
+	converts bool
 	// returns accepted?, detail
 	f func(b []byte) (bool, string)
 }
@@ -81,35 +84,35 @@ func errDetail(err error) string {
 }
 
 var lexAPIs = []lexAPI{
-	{"Valid", func(b []byte) (bool, string) { return sonic.Valid(b), "" }},
-	{"ValidString", func(b []byte) (bool, string) { return sonic.ValidString(string(b)), "" }},
-	{"ConfigStd.Valid", func(b []byte) (bool, string) { return sonic.ConfigStd.Valid(b), "" }},
-	{"Unmarshal.iface", func(b []byte) (bool, string) {
+	{"Valid", false, func(b []byte) (bool, string) { return sonic.Valid(b), "" }},
+	{"ValidString", false, func(b []byte) (bool, string) { return sonic.ValidString(string(b)), "" }},
+	{"ConfigStd.Valid", false, func(b []byte) (bool, string) { return sonic.ConfigStd.Valid(b), "" }},
+	{"Unmarshal.iface", true, func(b []byte) (bool, string) {
 		var v interface{}
 		err := sonic.Unmarshal(b, &v)
 		return err == nil, errDetail(err)
 	}},
-	{"ConfigStd.Unmarshal.iface", func(b []byte) (bool, string) {
+	{"ConfigStd.Unmarshal.iface", true, func(b []byte) (bool, string) {
 		var v interface{}
 		err := sonic.ConfigStd.Unmarshal(b, &v)
 		return err == nil, errDetail(err)
 	}},
-	{"UnmarshalString.iface", func(b []byte) (bool, string) {
+	{"UnmarshalString.iface", true, func(b []byte) (bool, string) {
 		var v interface{}
 		err := sonic.UnmarshalString(string(b), &v)
 		return err == nil, errDetail(err)
 	}},
-	{"Unmarshal.RawMessage", func(b []byte) (bool, string) {
+	{"Unmarshal.RawMessage", false, func(b []byte) (bool, string) {
 		var v json.RawMessage
 		err := sonic.Unmarshal(b, &v)
 		return err == nil, errDetail(err)
 	}},
-	{"Unmarshal.Unmarshaler", func(b []byte) (bool, string) {
+	{"Unmarshal.Unmarshaler", false, func(b []byte) (bool, string) {
 		var v capture
 		err := sonic.Unmarshal(b, &v)
 		return err == nil, errDetail(err)
 	}},
-	{"Get", func(b []byte) (bool, string) {
+	{"Get", false, func(b []byte) (bool, string) {
 		n, err := sonic.Get(b)
 		if err != nil {
 			return false, errDetail(err)
@@ -119,7 +122,7 @@ var lexAPIs = []lexAPI{
 		}
 		return true, ""
 	}},
-	{"GetFromString", func(b []byte) (bool, string) {
+	{"GetFromString", false, func(b []byte) (bool, string) {
 		n, err := sonic.GetFromString(string(b))
 		if err != nil {
 			return false, errDetail(err)
@@ -129,12 +132,12 @@ var lexAPIs = []lexAPI{
 		}
 		return true, ""
 	}},
-	{"NewRaw.Check", func(b []byte) (bool, string) {
+	{"NewRaw.Check", false, func(b []byte) (bool, string) {
 		n := ast.NewRaw(string(b))
 		err := n.Check()
 		return err == nil, errDetail(err)
 	}},
-	{"NewSearcher.GetByPath", func(b []byte) (bool, string) {
+	{"NewSearcher.GetByPath", false, func(b []byte) (bool, string) {
 		s := ast.NewSearcher(string(b))
 		n, err := s.GetByPath()
 		if err != nil {
@@ -143,7 +146,7 @@ var lexAPIs = []lexAPI{
 		err = n.Check()
 		return err == nil, errDetail(err)
 	}},
-	{"decoder.Skip", func(b []byte) (bool, string) {
+	{"decoder.Skip", false, func(b []byte) (bool, string) {
 		st, end := decoder.Skip(b)
 		if st < 0 {
 			return false, fmt.Sprint("code ", -st)
@@ -158,7 +161,7 @@ var lexAPIs = []lexAPI{
 		}
 		return true, ""
 	}},
-	{"Node.UnmarshalJSON.LoadAll", func(b []byte) (bool, string) {
+	{"Node.UnmarshalJSON.LoadAll", false, func(b []byte) (bool, string) {
 		var n ast.Node
 		if err := n.UnmarshalJSON(b); err != nil {
 			return false, errDetail(err)
@@ -171,7 +174,7 @@ var lexAPIs = []lexAPI{
 		}
 		return true, ""
 	}},
-	{"Decoder.Decode.iface", func(b []byte) (bool, string) {
+	{"Decoder.Decode.iface", true, func(b []byte) (bool, string) {
 		d := decoder.NewDecoder(string(b))
 		var v interface{}
 		err := d.Decode(&v)
@@ -188,16 +191,21 @@ var lexAPIs = []lexAPI{
 // APIs applicable only to documents generated under the "obj" prefix: the whole document is an
 // object whose only key does not match the destination's field, i.e. the tail is a skipped value.
 var lexSkipAPIs = []lexAPI{
-	{"Unmarshal.skipfield", func(b []byte) (bool, string) {
+	{"Unmarshal.skipfield", false, func(b []byte) (bool, string) {
 		var v skipper
 		err := sonic.Unmarshal(b, &v)
 		return err == nil, errDetail(err)
 	}},
-	{"ConfigStd.Unmarshal.skipfield", func(b []byte) (bool, string) {
+	{"ConfigStd.Unmarshal.skipfield", false, func(b []byte) (bool, string) {
 		var v skipper
 		err := sonic.ConfigStd.Unmarshal(b, &v)
 		return err == nil, errDetail(err)
 	}},
+}
+
+func stdConverts(b []byte) bool {
+	var v interface{}
+	return json.Unmarshal(b, &v) == nil
 }
 
 func callLex(a lexAPI, b []byte) (acc bool, det string, panicked bool) {
@@ -265,6 +273,9 @@ func lexHandle(in []byte) []byte {
 			case pan:
 				kind = "panic"
 			case c.V == "accept" && !acc:
+				if a.converts && !stdConverts(b) {
+					break // a conversion error (1e999 into float64), shared with encoding/json: C01/C19's business
+				}
 				kind = "valid_rejected"
 			case c.V == "reject" && acc:
 				kind = "malformed_accepted"
